@@ -1,7 +1,38 @@
-(* C16 — proofs about the v2 port model V2.v (the public port: allow_dup = true). *)
+(* C16 — proofs about the v2 port model V2.v for the public port (allow_dup = true):
+   state invariant, per-subscription refinement to Sub1 with cap = None, theorems. *)
 From Coq Require Import List NArith Bool Arith Lia.
 From RV Require Import OutPort.Spec OutPort.SpecProofs OutPort.V2.
 Import ListNotations.
+
+Arguments tagged : simpl never.
+
+Lemma skipn_skipn2 : forall A y x (l : list A), skipn x (skipn y l) = skipn (y + x) l.
+Proof.
+  induction y as [|y IH]; intros x l; cbn; [reflexivity|].
+  destruct l; [destruct x; reflexivity|]. apply IH.
+Qed.
+
+Lemma skipn_nth_cons2 : forall A n (l : list A) x, nth_error l n = Some x -> skipn n l = x :: skipn (S n) l.
+Proof.
+  induction n as [|n IH]; intros l x H; destruct l; cbn in *; try discriminate.
+  - inversion H; reflexivity.
+  - apply IH. assumption.
+Qed.
+
+Lemma tagged_app2 : forall s l1 l2, tagged s (l1 ++ l2) = tagged s l1 ++ tagged s l2.
+Proof. intros. unfold tagged. rewrite filter_app, map_app. reflexivity. Qed.
+Lemma tagged_one_same2 : forall s r, tagged s [(s, r)] = [r].
+Proof. intros. unfold tagged. cbn. rewrite N.eqb_refl. reflexivity. Qed.
+Lemma tagged_one_other2 : forall s s' r, N.eqb s' s = false -> tagged s [(s', r)] = [].
+Proof. intros. unfold tagged. cbn. rewrite H. reflexivity. Qed.
+Lemma tagged_cons_same2 : forall s r q, tagged s ((s, r) :: q) = r :: tagged s q.
+Proof. intros. unfold tagged. cbn. rewrite N.eqb_refl. reflexivity. Qed.
+Lemma tagged_cons_other2 : forall s s' r q, N.eqb s' s = false -> tagged s ((s', r) :: q) = tagged s q.
+Proof. intros. unfold tagged. cbn. rewrite H. reflexivity. Qed.
+Lemma updf_same2 : forall A (f : N -> A) k v, updf f k v k = v.
+Proof. intros. unfold updf. rewrite N.eqb_refl. reflexivity. Qed.
+Lemma updf_other2 : forall A (f : N -> A) k v x, N.eqb x k = false -> updf f k v x = f x.
+Proof. intros. unfold updf. rewrite H. reflexivity. Qed.
 
 Section P.
   Variable C : Type.
@@ -11,10 +42,349 @@ Section P.
   Notation step := (step C cv true).
   Notation run := (run C cv true).
   Notation label := (label C).
+  Notation cmd := (cmd C).
+  Notation entry := (entry C).
 
   Lemma publish_nonblocking : forall (st : state) m,
     exists st', step st (LPublish m) = Some st'
       /\ queue C st' = queue C st ++ [Data m] /\ batch C st' = batch C st /\ dp C st' = dp C st
       /\ subscribers C st' = subscribers C st /\ actors C st' = actors C st.
   Proof. intros st m. eexists. split; [reflexivity|]. cbn. repeat split; reflexivity. Qed.
+
+  (* ---------- command lists ---------- *)
+  Fixpoint set_ids (l : list cmd) : list N :=
+    match l with
+    | [] => []
+    | Data _ :: t => set_ids t
+    | SetSub s _ _ :: t => s :: set_ids t
+    end.
+
+  Lemma datas_app : forall (l1 l2 : list cmd), datas C (l1 ++ l2) = datas C l1 ++ datas C l2.
+  Proof. induction l1 as [|[m|s a c] t IH]; intros l2; cbn; [reflexivity| |]; rewrite IH; reflexivity. Qed.
+
+  Lemma set_ids_app : forall (l1 l2 : list cmd), set_ids (l1 ++ l2) = set_ids l1 ++ set_ids l2.
+  Proof. induction l1 as [|[m|s a c] t IH]; intros l2; cbn; [reflexivity| |]; rewrite IH; reflexivity. Qed.
+
+  Lemma after_set_none : forall s (l : list cmd), ~ In s (set_ids l) -> after_set C s l = None.
+  Proof.
+    intros s. induction l as [|[m|s' a c] t IH]; intros H; cbn in *; [reflexivity|auto|].
+    destruct (N.eqb s' s) eqn:E.
+    - apply N.eqb_eq in E. subst. exfalso. apply H. left. reflexivity.
+    - apply IH. intros Hin. apply H. right. assumption.
+  Qed.
+
+  Lemma after_set_app_l : forall s (l1 l2 : list cmd) d, after_set C s l1 = Some d ->
+    after_set C s (l1 ++ l2) = Some (d ++ datas C l2).
+  Proof.
+    intros s. induction l1 as [|[m|s' a c] t IH]; intros l2 d H; cbn in *; [discriminate|auto|].
+    destruct (N.eqb s' s); [|auto]. inversion H; subst. rewrite datas_app. reflexivity.
+  Qed.
+
+  Lemma after_set_app_r : forall s (l1 l2 : list cmd), after_set C s l1 = None ->
+    after_set C s (l1 ++ l2) = after_set C s l2.
+  Proof.
+    intros s. induction l1 as [|[m|s' a c] t IH]; intros l2 H; cbn in *; [reflexivity|auto|].
+    destruct (N.eqb s' s); [discriminate|auto].
+  Qed.
+
+  Lemma after_set_data_prefix : forall s (l1 l2 : list cmd), set_ids l1 = [] ->
+    after_set C s (l1 ++ l2) = after_set C s l2.
+  Proof.
+    intros s l1 l2 H. apply after_set_app_r. apply after_set_none. rewrite H. intros [].
+  Qed.
+
+  (* ---------- subscriber vectors ---------- *)
+  Definition sids (l : list entry) : list N := map (e_sid C) l.
+
+  Lemma index_of_none : forall s (l : list entry), ~ In s (sids l) -> index_of C s l = None.
+  Proof.
+    intros s. induction l as [|e t IH]; intros H; cbn in *; [reflexivity|].
+    destruct (N.eqb (e_sid C e) s) eqn:E.
+    - apply N.eqb_eq in E. exfalso. apply H. left. assumption.
+    - rewrite IH; [reflexivity|]. intros Hin. apply H. right. assumption.
+  Qed.
+
+  Lemma index_of_some_in : forall s (l : list entry) i, index_of C s l = Some i -> In s (sids l).
+  Proof.
+    intros s. induction l as [|e t IH]; intros i H; cbn in *; [discriminate|].
+    destruct (N.eqb (e_sid C e) s) eqn:E.
+    - apply N.eqb_eq in E. left. assumption.
+    - destruct (index_of C s t) eqn:E2; [|discriminate]. right. eapply IH. reflexivity.
+  Qed.
+
+  Lemma index_of_nth : forall s (l : list entry) i e, NoDup (sids l) ->
+    nth_error l i = Some e -> e_sid C e = s -> index_of C s l = Some i.
+  Proof.
+    intros s. induction l as [|x t IH]; intros i e Hnd Hn Hs; [destruct i; discriminate|].
+    cbn in Hnd. inversion Hnd as [|? ? Hnotin Hnd']; subst. destruct i as [|i]; cbn in *.
+    - inversion Hn; subst. rewrite N.eqb_refl. reflexivity.
+    - destruct (N.eqb (e_sid C x) (e_sid C e)) eqn:E.
+      + apply N.eqb_eq in E. exfalso. apply Hnotin. rewrite E. unfold sids. apply in_map.
+        eapply nth_error_In. eassumption.
+      + rewrite (IH i e Hnd' Hn eq_refl). reflexivity.
+  Qed.
+
+  Lemma index_of_lt : forall s (l : list entry) i, index_of C s l = Some i -> i < length l.
+  Proof.
+    intros s. induction l as [|e t IH]; intros i H; cbn in *; [discriminate|].
+    destruct (N.eqb (e_sid C e) s); [inversion H; lia|].
+    destruct (index_of C s t) eqn:E; [|discriminate]. inversion H; subst. specialize (IH _ eq_refl). lia.
+  Qed.
+
+  Lemma index_of_app_one : forall s (l : list entry) e,
+    index_of C s (l ++ [e]) =
+    match index_of C s l with
+    | Some i => Some i
+    | None => if N.eqb (e_sid C e) s then Some (length l) else None
+    end.
+  Proof.
+    intros s. induction l as [|x t IH]; intros e; cbn.
+    - destruct (N.eqb (e_sid C e) s); reflexivity.
+    - destruct (N.eqb (e_sid C x) s); [reflexivity|]. rewrite IH.
+      destruct (index_of C s t); [reflexivity|]. destruct (N.eqb (e_sid C e) s); reflexivity.
+  Qed.
+
+  Lemma sids_remove_nth : forall n (l : list entry), sids (remove_nth n l) = remove_nth n (sids l).
+  Proof. induction n as [|n IH]; intros [|x t]; cbn; try reflexivity. rewrite IH. reflexivity. Qed.
+
+  Lemma remove_nth_sublist : forall A n (l : list A), sublist (remove_nth n l) l.
+  Proof.
+    induction n as [|n IH]; intros [|x t]; cbn.
+    - apply sl_nil.
+    - apply sl_skip. apply sublist_refl.
+    - apply sl_nil.
+    - apply sl_keep. apply IH.
+  Qed.
+
+  Lemma index_of_remove : forall s (l : list entry) si, NoDup (sids l) ->
+    index_of C s (remove_nth si l) =
+    match index_of C s l with
+    | Some i => if Nat.eqb i si then None else if Nat.ltb i si then Some i else Some (pred i)
+    | None => None
+    end.
+  Proof.
+    intros s. induction l as [|x t IH]; intros si Hnd; [destruct si; reflexivity|].
+    cbn in Hnd. inversion Hnd as [|? ? Hnotin Hnd']; subst.
+    destruct si as [|si]; cbn [remove_nth index_of].
+    - destruct (N.eqb (e_sid C x) s) eqn:E.
+      + cbn. apply index_of_none. apply N.eqb_eq in E. rewrite <- E. assumption.
+      + destruct (index_of C s t); reflexivity.
+    - destruct (N.eqb (e_sid C x) s) eqn:E; [reflexivity|].
+      rewrite (IH si Hnd'). destruct (index_of C s t) as [i|]; [|reflexivity].
+      change (Nat.eqb (S i) (S si)) with (Nat.eqb i si).
+      destruct (Nat.eqb i si) eqn:E1; [reflexivity|].
+      destruct (Nat.ltb i si) eqn:E2.
+      + assert (Nat.ltb (S i) (S si) = true) as -> by (apply Nat.ltb_lt; apply Nat.ltb_lt in E2; lia).
+        reflexivity.
+      + assert (Nat.ltb (S i) (S si) = false) as -> by (apply Nat.ltb_ge; apply Nat.ltb_ge in E2; lia).
+        apply Nat.eqb_neq in E1. apply Nat.ltb_ge in E2. destruct i; [lia|reflexivity].
+  Qed.
+
+  (* ---------- segments ---------- *)
+  Lemma seg_end_spec : forall (l : list cmd) from,
+    let b := seg_end C l from in
+    from <= b /\ b <= from + length l /\ set_ids (firstn (b - from) l) = [].
+  Proof.
+    induction l as [|[m|s a c] t IH]; intros from; cbn.
+    - rewrite Nat.sub_diag. split; [lia|]. split; [lia|reflexivity].
+    - destruct (IH (S from)) as (H1 & H2 & H3). split; [lia|]. split; [lia|].
+      replace (seg_end C t (S from) - from) with (S (seg_end C t (S from) - S from)) by lia.
+      cbn. exact H3.
+    - rewrite Nat.sub_diag. split; [lia|]. split; [lia|reflexivity].
+  Qed.
+
+  Lemma seg_split : forall (bt : list cmd) a b, a <= b -> seg C bt a b ++ skipn b bt = skipn a bt.
+  Proof.
+    intros bt a b H. unfold seg. replace (skipn b bt) with (skipn (b - a) (skipn a bt)).
+    - apply firstn_skipn.
+    - rewrite skipn_skipn2. f_equal. lia.
+  Qed.
+
+  Lemma seg_empty : forall (bt : list cmd) a b, b <= a -> seg C bt a b = [].
+  Proof. intros bt a b H. unfold seg. replace (b - a) with 0 by lia. reflexivity. Qed.
+
+  Lemma seg_cons : forall (bt : list cmd) mi b x, nth_error bt mi = Some x -> mi < b ->
+    seg C bt mi b = x :: seg C bt (S mi) b.
+  Proof.
+    intros bt mi b x H Hlt. unfold seg. rewrite (skipn_nth_cons2 _ _ _ _ H).
+    replace (b - mi) with (S (b - S mi)) by lia. reflexivity.
+  Qed.
+
+  (* ---------- state invariant ---------- *)
+  Definition ids (st : state) : list N :=
+    sids (subscribers C st) ++ set_ids (batch_rest C st) ++ set_ids (queue C st).
+
+  Record WInv (st : state) : Prop := mkW {
+    w_nd : NoDup (ids st);
+    w_e : forall e, In e (subscribers C st) -> decl C st (e_sid C e) = Some (e_actor C e, e_conv C e);
+    w_c : forall s a c, In (SetSub s a c) (batch_rest C st ++ queue C st) -> decl C st s = Some (a, c);
+    w_tag : forall a s r, In (s, r) (a_mbox (actors C st a) ++ a_got (actors C st a)) ->
+              exists c, decl C st s = Some (a, c) }.
+
+  Lemma winv_init : WInv (init C).
+  Proof.
+    constructor; cbn.
+    - constructor.
+    - intros e [].
+    - intros s a c [].
+    - intros a s r [].
+  Qed.
+
+  Lemma set_ids_in : forall s (l : list cmd), In s (set_ids l) -> exists a c, In (SetSub s a c) l.
+  Proof.
+    intros s. induction l as [|[m|s' a c] t IH]; intros H; cbn in *; [destruct H| |].
+    - destruct (IH H) as (a & c & Hin). eauto.
+    - destruct H as [->|H]; [eauto|]. destruct (IH H) as (a' & c' & Hin). eauto.
+  Qed.
+
+  Lemma in_ids_decl : forall (st : state) s, WInv st -> In s (ids st) -> decl C st s <> None.
+  Proof.
+    intros st s I H. unfold ids in H. apply in_app_or in H. destruct H as [H|H].
+    - unfold sids in H. apply in_map_iff in H. destruct H as (e & <- & Hin).
+      rewrite (w_e _ I e Hin). discriminate.
+    - rewrite <- set_ids_app in H. destruct (set_ids_in _ _ H) as (a & c & Hin).
+      rewrite (w_c _ I _ _ _ Hin). discriminate.
+  Qed.
+
+  Lemma NoDup_snoc2 : forall A (l : list A) x, NoDup l -> ~ In x l -> NoDup (l ++ [x]).
+  Proof.
+    induction l as [|y t IH]; intros x Hnd Hn; cbn.
+    - constructor; [intros []|constructor].
+    - inversion Hnd; subst. constructor.
+      + intros Hin. apply in_app_or in Hin. destruct Hin as [Hin|[->|[]]]; [contradiction|].
+        apply Hn. left. reflexivity.
+      + apply IH; [assumption|]. intros Hin. apply Hn. right. assumption.
+  Qed.
+
+  (* a step that keeps subscribers, rest of batch, queue, decl; actors only shrink *)
+  Lemma winv_frame : forall (st st' : state), WInv st ->
+    subscribers C st' = subscribers C st -> batch_rest C st' = batch_rest C st ->
+    queue C st' = queue C st -> decl C st' = decl C st ->
+    (forall a it, In it (a_mbox (actors C st' a) ++ a_got (actors C st' a)) ->
+                  In it (a_mbox (actors C st a) ++ a_got (actors C st a))) ->
+    WInv st'.
+  Proof.
+    intros st st' I Hs Hb Hq Hd Ha. destruct I as [Ind Ie Ic It].
+    constructor; unfold ids in *; rewrite ?Hs, ?Hb, ?Hq, ?Hd; auto.
+    intros a s r Hin. apply (It a s r). apply Ha. assumption.
+  Qed.
+
+  Lemma skipn_all_nil : forall A n (l : list A), length l <= n -> skipn n l = [].
+  Proof. intros. apply skipn_all2. assumption. Qed.
+
+  Lemma winv_step : forall (st st' : state) l, WInv st -> step st l = Some st' -> WInv st'.
+  Proof.
+    intros st st' l I H. destruct l; cbn [V2.step] in H.
+    - (* LPublish *)
+      inversion H; subst; clear H. destruct I as [Ind Ie Ic It].
+      constructor; unfold ids in *; cbn; auto.
+      + rewrite set_ids_app. cbn. rewrite app_nil_r. exact Ind.
+      + intros s a c Hin. apply Ic. rewrite app_assoc in Hin. apply in_app_or in Hin.
+        destruct Hin as [Hin|[Hin|[]]]; [assumption|discriminate].
+    - (* LSubscribe *)
+      destruct (decl C st s) eqn:D; [discriminate|]. inversion H; subst; clear H.
+      assert (Hfresh : ~ In s (ids st)) by (intros Hin; exact (in_ids_decl st s I Hin D)).
+      destruct I as [Ind Ie Ic It].
+      constructor; unfold ids in *; cbn.
+      + rewrite set_ids_app. cbn. rewrite !app_assoc. apply NoDup_snoc2; rewrite <- ?app_assoc; assumption.
+      + intros e Hin. unfold updf. destruct (N.eqb (e_sid C e) s) eqn:E; [|auto].
+        apply N.eqb_eq in E. rewrite <- E, (Ie e Hin) in D. discriminate.
+      + intros s' a' c' Hin. rewrite app_assoc in Hin. apply in_app_or in Hin. unfold updf.
+        destruct Hin as [Hin|[Hin|[]]].
+        * destruct (N.eqb s' s) eqn:E; [|auto]. apply N.eqb_eq in E. subst s'.
+          rewrite (Ic _ _ _ Hin) in D. discriminate.
+        * inversion Hin; subst. rewrite N.eqb_refl. reflexivity.
+      + intros a' s' r Hin. destruct (It a' s' r Hin) as (c' & Dc). exists c'. unfold updf.
+        destruct (N.eqb s' s) eqn:E; [|assumption]. apply N.eqb_eq in E. subst s'. congruence.
+    - (* LTake *)
+      destruct (dp C st) eqn:Dp; try discriminate.
+      match type of H with (if ?bb then _ else _) = _ => destruct bb; [|discriminate] end.
+      inversion H; subst; clear H. destruct I as [Ind Ie Ic It].
+      unfold ids, batch_rest in *. rewrite Dp in *. cbn in *.
+      constructor; unfold ids, batch_rest; cbn; auto.
+      + rewrite <- set_ids_app, firstn_skipn. exact Ind.
+      + intros s a c Hin. apply Ic. rewrite firstn_skipn in Hin. exact Hin.
+    - (* LCtl *)
+      destruct (dp C st) as [|a|a b si|a b si mi|b] eqn:Dp; try discriminate.
+      + destruct (Nat.ltb a (length (batch C st))) eqn:Lt.
+        * pose proof (seg_end_spec (skipn a (batch C st)) a) as (S1 & S2 & S3).
+          set (b := seg_end C (skipn a (batch C st)) a) in *.
+          assert (Hr : skipn a (batch C st) = seg C (batch C st) a b ++ skipn b (batch C st))
+            by (symmetry; apply seg_split; exact S1).
+          assert (WInv (set_dp C st (DApply b)) /\ WInv (set_dp C st (DSub a b 0))) as [W1 W2].
+          { destruct I as [Ind Ie Ic It]. unfold ids, batch_rest in *. rewrite Dp in *.
+            split; constructor; unfold ids, batch_rest; cbn; auto.
+            - rewrite Hr, set_ids_app in Ind. unfold seg in Ind. rewrite S3 in Ind. exact Ind.
+            - intros s c0 c1 Hin. apply Ic. rewrite Hr, <- app_assoc. apply in_or_app. right. exact Hin.
+            - rewrite Hr, set_ids_app in Ind. unfold seg in Ind. rewrite S3 in Ind. exact Ind.
+            - intros s c0 c1 Hin. apply Ic. rewrite Hr, <- app_assoc. apply in_or_app. right. exact Hin. }
+          destruct (Nat.ltb a b); inversion H; subst; assumption.
+        * inversion H; subst; clear H. apply Nat.ltb_ge in Lt.
+          destruct I as [Ind Ie Ic It]. unfold ids, batch_rest in *. rewrite Dp in *.
+          rewrite (skipn_all_nil _ _ _ Lt) in *.
+          constructor; unfold ids, batch_rest; cbn; auto.
+      + destruct (Nat.ltb si (length (subscribers C st))); inversion H; subst; clear H;
+          (eapply winv_frame; [exact I|reflexivity|unfold batch_rest; cbn; rewrite Dp; reflexivity|reflexivity|reflexivity|auto]).
+      + destruct (Nat.ltb mi b); [discriminate|]. inversion H; subst; clear H.
+        eapply winv_frame; [exact I|reflexivity|unfold batch_rest; cbn; rewrite Dp; reflexivity|reflexivity|reflexivity|auto].
+      + destruct (Nat.eqb b (length (batch C st))) eqn:Eb; [|discriminate]. inversion H; subst; clear H.
+        apply Nat.eqb_eq in Eb.
+        destruct I as [Ind Ie Ic It]. unfold ids, batch_rest in *. rewrite Dp in *.
+        rewrite Eb, skipn_all in *.
+        constructor; unfold ids, batch_rest; cbn; auto.
+    - (* LSend *)
+      destruct (dp C st) as [|a|a b si|a b si mi|b] eqn:Dp; try discriminate.
+      destruct (Nat.ltb mi b); [|discriminate].
+      destruct (nth_error (subscribers C st) si) as [e|] eqn:Ne; [|discriminate].
+      destruct (nth_error (batch C st) mi) as [[m|? ? ?]|]; try discriminate.
+      destruct (N.eqb (e_sid C e) s) eqn:Es; [|discriminate]. apply N.eqb_eq in Es.
+      assert (Hin_e : In e (subscribers C st)) by (eapply nth_error_In; eassumption).
+      destruct (cv (e_conv C e) m) as [r|].
+      + destruct (a_alive (actors C st (e_actor C e))) eqn:Al; inversion H; subst; clear H.
+        * destruct I as [Ind Ie Ic It]. unfold ids, batch_rest in *. rewrite Dp in *.
+          constructor; unfold ids, batch_rest; cbn; auto.
+          intros a' s' r' Hin. unfold updf in Hin. destruct (N.eqb a' (e_actor C e)) eqn:Ea.
+          -- apply N.eqb_eq in Ea. subst a'. cbn in Hin.
+             apply in_app_or in Hin. destruct Hin as [Hin|Hin].
+             ++ apply in_app_or in Hin. destruct Hin as [Hin|[Hin|[]]].
+                ** apply (It _ s' r'). apply in_or_app. left. assumption.
+                ** inversion Hin; subst. exists (e_conv C e). apply Ie. assumption.
+             ++ apply (It _ s' r'). apply in_or_app. right. assumption.
+          -- apply (It a' s' r'). assumption.
+        * destruct I as [Ind Ie Ic It]. unfold ids, batch_rest in *. rewrite Dp in *.
+          constructor; unfold ids, batch_rest; cbn; auto.
+          -- eapply sublist_NoDup; [|exact Ind]. apply sublist_app; [|apply sublist_refl].
+             unfold sids. apply sublist_map. apply remove_nth_sublist.
+          -- intros e' Hin. apply Ie. eapply sublist_In; [apply remove_nth_sublist|exact Hin].
+      + inversion H; subst; clear H.
+        eapply winv_frame; [exact I|reflexivity|unfold batch_rest; cbn; rewrite Dp; reflexivity|reflexivity|reflexivity|auto].
+    - (* LApply *)
+      destruct (dp C st) as [|a|a b si|a b si mi|b] eqn:Dp; try discriminate.
+      destruct (nth_error (batch C st) b) as [[m|s a c]|] eqn:Nb; try discriminate.
+      cbn in H. destruct (oeqb r None); [|discriminate]. inversion H; subst; clear H.
+      pose proof (skipn_nth_cons2 _ _ _ _ Nb) as Hr.
+      destruct I as [Ind Ie Ic It]. unfold ids, batch_rest in *. rewrite Dp in *. rewrite Hr in *.
+      constructor; unfold ids, batch_rest; cbn; auto.
+      + unfold sids. rewrite map_app. cbn. rewrite <- app_assoc. cbn. exact Ind.
+      + intros e Hin. apply in_app_or in Hin. destruct Hin as [Hin|[<-|[]]]; [auto|].
+        cbn. apply Ic. left. reflexivity.
+      + intros s' a' c' Hin. apply Ic. right. exact Hin.
+    - (* LHandle *)
+      destruct (a_alive (actors C st a)); [|discriminate].
+      destruct (a_mbox (actors C st a)) as [|[s' r] q] eqn:M; [discriminate|].
+      destruct (N.eqb s' s); [|discriminate]. inversion H; subst; clear H.
+      eapply winv_frame; [exact I|reflexivity|reflexivity|reflexivity|reflexivity|].
+      intros a' it Hin. cbn in Hin. unfold updf in Hin. destruct (N.eqb a' a) eqn:Ea; [|assumption].
+      apply N.eqb_eq in Ea. subst a'. cbn in Hin. rewrite M.
+      apply in_app_or in Hin. destruct Hin as [Hin|Hin].
+      + right. apply in_or_app. left. assumption.
+      + apply in_app_or in Hin. destruct Hin as [Hin|[<-|[]]].
+        * right. apply in_or_app. right. assumption.
+        * left. reflexivity.
+    - (* LStop *)
+      destruct (a_alive (actors C st a)); [|discriminate]. inversion H; subst; clear H.
+      eapply winv_frame; [exact I|reflexivity|reflexivity|reflexivity|reflexivity|].
+      intros a' it Hin. cbn in Hin. unfold updf in Hin. destruct (N.eqb a' a) eqn:Ea; [|assumption].
+      apply N.eqb_eq in Ea. subst a'. cbn in Hin. apply in_or_app. right. assumption.
+  Qed.
 End P.
